@@ -562,12 +562,6 @@ class BatteryDistributionAlgorithm:
                     deficit += excess_reserved[largest.inverter_ids]
                     deficits[inverter_ids] = deficit
                     excess_reserved[largest.inverter_ids] = 0.0
-            if deficit < -0.1:
-                left_over = power_w - distributed_power
-                if left_over > -deficit:
-                    distributed_power += deficit
-                elif left_over > 0.0:
-                    distributed_power += left_over
 
         for inverter_ids, excess in excess_reserved.items():
             distributed_power += excess
